@@ -1161,4 +1161,74 @@ theorem mergeDirectives_keeps {x : DirDef} : ∀ (srcs : List Schema) (acc : Lis
       · exact Or.inl (dirInner_keeps _ _ (hag S List.mem_cons_self) (Or.inr hx))
       · exact Or.inr ⟨S, hS, hx⟩
 
+/-! ## reading items back -/
+
+theorem type_item_mem {n : String} {k : Kind} {r : TypeDef} : Item.type n k ∈ defItems r ↔ r.name = n ∧ r.kind = k := by
+  simp only [defItems, List.mem_cons, List.mem_append, Item.type.injEq]
+  constructor
+  · rintro (⟨rfl, rfl⟩ | h)
+    · exact ⟨rfl, rfl⟩
+    · exfalso
+      rcases h with ((h | h) | h) | h <;> split at h <;> simp [fieldItems] at h
+  · rintro ⟨rfl, rfl⟩; exact Or.inl ⟨rfl, rfl⟩
+
+theorem field_item_mem {T f : String} {ty : TypeRef} {df : Option String} {r : TypeDef} :
+    Item.field T f ty df ∈ defItems r ↔ r.name = T ∧ hasFields r.kind = true ∧
+      ∃ g ∈ r.fields, isBuiltinName g.name = false ∧ g.name = f ∧ g.type = ty ∧ g.default = df := by
+  simp only [defItems, List.mem_cons, List.mem_append, reduceCtorEq, false_or]
+  constructor
+  · intro h
+    rcases h with ((h | h) | h) | h
+    · split at h
+      · rename_i hh
+        simp only [List.mem_flatMap, List.mem_filter, fieldItems, List.mem_cons, Item.field.injEq, List.mem_map,
+          reduceCtorEq, and_false, exists_false, or_false, Bool.not_eq_true'] at h
+        obtain ⟨g, ⟨hg, hb⟩, h1, h2, h3, h4⟩ := h
+        exact ⟨h1.symm, hh, g, hg, hb, h2.symm, h3.symm, h4.symm⟩
+      · cases h
+    all_goals (split at h <;> simp at h)
+  · rintro ⟨rfl, hh, g, hg, hb, rfl, rfl, rfl⟩
+    left; left; left
+    simp only [hh, ↓reduceIte, List.mem_flatMap, List.mem_filter, fieldItems, List.mem_cons, Bool.not_eq_true']
+    exact ⟨g, ⟨hg, hb⟩, Or.inl rfl⟩
+
+theorem iface_item_mem {T I : String} {r : TypeDef} :
+    Item.iface T I ∈ defItems r ↔ r.name = T ∧ hasInterfaces r.kind = true ∧ I ∈ r.interfaces := by
+  simp only [defItems, List.mem_cons, List.mem_append, reduceCtorEq, false_or]
+  constructor
+  · intro h
+    rcases h with ((h | h) | h) | h
+    · split at h
+      · simp [fieldItems] at h
+      · cases h
+    · split at h <;> simp at h
+    · split at h <;> simp at h
+    · split at h
+      · rename_i hh
+        simp only [List.mem_map, Item.iface.injEq] at h
+        obtain ⟨i, hi, rfl, rfl⟩ := h
+        exact ⟨rfl, hh, hi⟩
+      · cases h
+  · rintro ⟨rfl, hh, hi⟩
+    right
+    simp only [hh, ↓reduceIte, List.mem_map]
+    exact ⟨I, hi, rfl⟩
+
+theorem eq_of_nodup_name {ts : List TypeDef} (hn : (ts.map (·.name)).Nodup) {x y : TypeDef}
+    (hx : x ∈ ts) (hy : y ∈ ts) (h : x.name = y.name) : x = y := by
+  have h1 := lookup_of_nodup hn hx
+  have h2 := lookup_of_nodup hn hy
+  rw [h] at h1
+  rw [h1] at h2
+  exact Option.some.inj h2
+
+theorem refillUnions_names (p : List (String × List String)) (ts : List TypeDef) :
+    (refillUnions p ts).map (·.name) = ts.map (·.name) := by
+  unfold refillUnions
+  rw [List.map_map]
+  apply List.map_congr_left
+  intro d _
+  simp only [Function.comp]
+  split <;> rfl
+
 end PebblesVerif.Merge
